@@ -19,12 +19,14 @@ class P:
     pass
 
 
-def mk(meth, iters, scaled=False):
+def mk(meth, iters, scaled=False, cat=False):
     o = P()
     ocp = Ocp(t0=0, T=1); o.ocp = ocp
+    o.A = ocp.parameter(2, 2) if cat else None
     o.x = ocp.state(scale=2) if scaled else ocp.state(); o.u = ocp.control(scale=4) if scaled else ocp.control(); o.p = ocp.parameter(); o.q = ocp.parameter()
     ocp.set_der(o.x, -o.x + o.u + o.p)
     ocp.add_objective(ocp.at_tf((o.x - o.q) ** 2) + ocp.sum(o.u ** 2) + ocp.integral((o.x - 1) ** 2))
+    if cat: ocp.add_objective(ocp.at_tf(o.x) * (o.A[0, 0] + 2 * o.A[1, 0] + 3 * o.A[0, 1] + 4 * o.A[1, 1]))
     ocp.subject_to(ocp.at_t0(o.x) == o.p / 2)
     ocp.subject_to(o.u <= 5)
     ocp.solver('ipopt', opts(iters))
@@ -91,7 +93,11 @@ def ramp(g, n):
 
 
 def assign(o, d):
-    o.ocp.set_value(o.p, d['p']); o.ocp.set_value(o.q, d['q'])
+    if o.A is not None:
+        # one assignment for the concatenation (matrix first): column-major entries of A, then p
+        o.ocp.set_value(ca.veccat(o.A, o.p), ca.DM([0.1, 0.2, 0.3, 0.4, d['p']])); o.ocp.set_value(o.q, d['q'])
+    else:
+        o.ocp.set_value(o.p, d['p']); o.ocp.set_value(o.q, d['q'])
     if d['gx'] != 0: o.ocp.set_initial(o.x, ca.DM(ramp(d['gx'], N + 1)).T)
     if d['gu'] != 0: o.ocp.set_initial(o.u, d['gu'])
 
@@ -105,7 +111,7 @@ def replay(rec):
     if sc.get('multi'): return replay_multi(rec)
     args = sorted(sc['args'])
     try:
-        a = quiet(mk, sc['meth'], sc['iters'], sc.get('scaled', False))
+        a = quiet(mk, sc['meth'], sc['iters'], sc.get('scaled', False), sc.get('cat', False))
         quiet(assign, a, sc['pre'])
         ocp = a.ocp
         ss = sc['meth'] == 'SS'     # under SingleShooting only the initial state is a decision variable
@@ -125,7 +131,7 @@ def replay(rec):
                   'gu': lambda: ca.DM.ones(1, N) * sc['vals']['gu']}
         ra = quiet(lambda: f(*[argval[n]() for n in args]))
         ra = [np.array(r).reshape(-1) for r in (ra if isinstance(ra, (list, tuple)) else [ra])]
-        b = quiet(mk, sc['meth'], sc['iters'], sc.get('scaled', False))
+        b = quiet(mk, sc['meth'], sc['iters'], sc.get('scaled', False), sc.get('cat', False))
         quiet(assign, b, data)
         try:
             sol = quiet(b.ocp.solve)
